@@ -9,7 +9,9 @@ import (
 	"regexp"
 	"strconv"
 	"strings"
+	"sync"
 	"time"
+	"unsafe"
 
 	"gorm.io/gorm"
 	"gorm.io/gorm/clause"
@@ -52,6 +54,25 @@ func (c *CustomVal) Scan(v interface{}) error {
 	return nil
 }
 func (CustomVal) GormDataType() string { return "text" }
+
+// VList is a slice type that is its own driver.Valuer (like pq.StringArray): it is bound whole, as one
+// value, also when it is empty. An empty VList cannot carry a marker in its elements: the generator
+// gives it a private backing array (capacity 1) and registers the marker under that array's address.
+type VList []string
+
+var vlistReg sync.Map // *string (backing array) -> marker text
+
+func (v VList) Value() (driver.Value, error) {
+	if len(v) > 0 {
+		return strings.Join(v, ","), nil
+	}
+	if p := unsafe.SliceData([]string(v)); p != nil {
+		if m, ok := vlistReg.Load(p); ok {
+			return m.(string), nil
+		}
+	}
+	return "", nil
+}
 
 // GValuer implements gorm.Valuer: rendered as an SQL expression with its own argument.
 type GValuer struct{ Inner interface{} }
@@ -99,7 +120,7 @@ func (g *gen) newLeaf(col, kind string) *leaf {
 	s := g.n
 	l := &leaf{serial: s, col: col}
 	if kind == "" {
-		kind = core.Pick(g.r, []string{"string", "string", "string", "int", "int64", "uint", "float", "bytes", "time", "pstring", "pint", "nullstring", "nullint", "custom", "gvaluer", "expr"})
+		kind = core.Pick(g.r, []string{"string", "string", "string", "int", "int64", "uint", "float", "bytes", "time", "pstring", "pint", "nullstring", "nullint", "custom", "gvaluer", "expr", "vlist", "vlistempty"})
 	}
 	str := marker(s, col) + core.Pick(g.r, tails)
 	switch kind {
@@ -128,6 +149,12 @@ func (g *gen) newLeaf(col, kind string) *leaf {
 		l.val = sql.NullInt64{Int64: int64(intBase + s), Valid: true}
 	case "custom":
 		l.val = CustomVal{S: str}
+	case "vlist":
+		l.val = VList{str}
+	case "vlistempty":
+		backing := make([]string, 0, 1)
+		vlistReg.Store(unsafe.SliceData(backing), str)
+		l.val = VList(backing)
 	case "gvaluer":
 		l.val = GValuer{Inner: str}
 	case "expr":
@@ -298,6 +325,16 @@ func (g *gen) rawCond(root *gorm.DB, depth int) cond {
 			parts = append(parts, col+core.Pick(g.r, []string{" IN ?", " IN (?)"}))
 			args = append(args, core.Pick(g.r, []interface{}{[]string{}, []int64{}, []interface{}{}}))
 		case 5:
+			if g.r.Bool() {
+				// a placeholder directly behind an opening parenthesis: there gorm expands plain slices
+				// (a byte slice too), everything else - a slice type that is its own Valuer included -
+				// is one bound value
+				l := g.newLeaf(col, core.Pick(g.r, []string{"string", "int", "custom", "nullstring", "pstring", "vlist", "vlistempty", "vlistempty"}))
+				parts = append(parts, col+" = (?)")
+				args = append(args, l.val)
+				ls = append(ls, l)
+				continue
+			}
 			l := g.newLeaf(col, "")
 			parts = append(parts, "COALESCE("+col+", ?) IS NOT NULL")
 			args = append(args, l.val)
